@@ -35,7 +35,7 @@ def run_case(case):
     spec, cfg = case["spec"], case["cfg"]
     m = M.RefEnum(spec)
     rnd = J.case_rng(case)
-    hists = [list(h) for h in case["hists"]] + [C.rand_history(rnd, m.n) for _ in range(16)] + [["l"], ["collect"]]
+    hists = [list(h) for h in case["hists"]] + [C.rand_history(rnd, m.n, ord_ok=True) for _ in range(16)] + [["l"], ["collect"], ["max"], ["min"], ["n", "b", "max"]]
     sc = E.Script()
     C.sc_names(sc, 0, m, cfg, hists)
     C.sc_str(sc, 0, m, cfg, C.pick_idxs(m, rnd, 32))
